@@ -87,8 +87,11 @@ CLAIMED = {
              "each observation against FaultTrace.tla, a postcondition evaluated on the abstract pre-state "
              "Document!Step yields: failure reported (false / unbound / NoMemory), overflowed() set, tree well "
              "formed (read API and inspector), every value and reference outside the modified path unchanged, "
-             "nothing allocated after clear(), document works after clear(), no leak or foreign release.",
-        design_ref="DESIGN.md §4 C05",
+             "nothing allocated after clear(), document works after clear(), no leak or foreign release. The "
+             "deserializers on their own: inputs whose fault-free result JsonReader.tla / MsgPack.tla computed are read "
+             "with a failure at every allocator call (events 'rfault' of FaultTrace.tla: NoMemory or the input's own error, "
+             "overflowed(), well-formed document, clean ledger).",
+        design_ref="DESIGN.md §4 C05, §9.6",
         note="Fault enumeration is exhaustive per behaviour for single and from-k schedules (k up to 40), sampled "
              "for multi-failure subsets. Crashes/UB are observed by ASan/UBSan. Shrinking reallocations never fail.",
         technique="TLA+ spec + TLC (failure nondeterminism); fault enumeration on the library validated by TLC "
@@ -210,7 +213,8 @@ CLAIMED["C12"] = dict(
          "1e-300..1e300, infinity / zero or right exponent outside) and applies the bound to the measured error, for "
          "literals of up to thousands of digits parsed in documents and through as<T>() on strings; printing: float bit "
          "patterns (quick strided, thorough all 2^32) within 1e-6*max(1,|x|), sampled doubles over all exponents within "
-         "1e-9*max(1,|x|).",
+         "1e-9*max(1,|x|). Also on a single-precision build (range 1e-37..1e38, gross-error bound) and on an "
+         "Arduino-style build with the power-of-ten tables in program memory.",
     design_ref="DESIGN.md §4 C12", note=NUM_NOTE + " Known finding: double-stored-as-float.",
     technique="TLA+ case analysis over literal shapes; trace validation of measured conversions")
 CLAIMED["C13"] = dict(
@@ -219,7 +223,8 @@ CLAIMED["C13"] = dict(
          "in every storage kind and every target type: as<T>() = truncation if in range else 0, is<T>() iff stored integer "
          "that fits, agreement with wider types, v|default, nearest double/float; 32-bit storage kinds are swept (quick "
          "strided, thorough all 2^32 per kind and target) with no value allowed to convert to anything but its "
-         "truncation or 0; copyArray with guard elements; UBSan float-cast-overflow on.",
+         "truncation or 0; copyArray with guard elements; numeric strings of any spelling through as<T>() on double and "
+         "single-precision builds; UBSan float-cast-overflow on.",
     design_ref="DESIGN.md §4 C13", note=NUM_NOTE,
     technique="TLA+ case analysis over a landmark table; trace validation of recorded conversions; run-length sweeps")
 
@@ -229,7 +234,8 @@ CLAIMED["C20"] = dict(
          "constant tables; TLC checks RaceFree for all interleavings of in-progress operations under const-only sharing "
          "and must find the documented race for Filter(JsonDocument&). On the implementation 8 threads replay "
          "spec-annotated behaviour streams (DocumentFeed.tla) on their own documents on the shared allocator while "
-         "reading a shared document through JsonVariantConst (copy source, filter, serialization); each per-thread "
+         "reading a shared document that spans several pools through JsonVariantConst (copy source, filter, indexing, "
+         "serialization) and running their share of reader cases computed by TLC (JSON with escapes, MessagePack); each per-thread "
          "execution must equal the sequential expectation; built with ThreadSanitizer (a data race aborts) and with ASan.",
     design_ref="DESIGN.md §4 C20",
     note="Schedules are sampled, not enumerated; TSan observes the real footprints on the runs performed. The footprint "
